@@ -216,7 +216,11 @@ class CoreWorld(World):
     def generate_dispatch(self, I, ov, arganal):
         self.event(I, "generate_dispatch")
         self._maybe_fail(I, "generate_dispatch", "TypeError")
-        return Tok("generated_entry", __code__=("GENERATED", len(self.log)), __kwdefaults__="kwd", __annotations__="ann", __defaults__="def", __globals__={})
+        if getattr(self, "empty_entry_attrs", False):  # an entry point without defaults: None / None / {}
+            self.last_generated = Tok("generated_entry", __code__=("GENERATED", len(self.log)), __kwdefaults__=None, __annotations__={}, __defaults__=None, __globals__={})
+        else:
+            self.last_generated = Tok("generated_entry", __code__=("GENERATED", len(self.log)), __kwdefaults__="kwd", __annotations__="ann", __defaults__="def", __globals__={})
+        return self.last_generated
 
     def adapt_function(self, I, fn, ovld, newname):
         self.event(I, "adapt_function")
@@ -496,7 +500,7 @@ def t_register_frame(gname, which="own"):
     return build
 
 
-def t_compile(gname, mode="post", which="last"):
+def t_compile(gname, mode="post", which="last", empty_attrs=False):
     """compile(): new table filled from defns with every method adapted FOR SELF, direct non-linked mixins locked,
     _compiled assigned last (C05, C08, C16).  which="root": the build of a PARENT (its first use) touches no child,
     linked or not, built or not (C20: using the parent is not a change of any method set)."""
@@ -510,6 +514,11 @@ def t_compile(gname, mode="post", which="last"):
             objs = build_graph(I, w, gname, locked=False)
             labels = list(objs)
             target = objs[labels[-1]] if which == "last" else objs[labels[0]]
+            w.empty_entry_attrs = empty_attrs
+            if empty_attrs:  # the function is in use: its user-facing function carries the defaults of the previous entry point
+                d0 = DispatchFn(target)
+                d0.attrs.update(__code__=("GENERATED", 0), __defaults__=("MISSING",), __kwdefaults__={"k": "MISSING"}, __annotations__={"x": "int"})
+                target.f.update(dispatch=d0, _compiled=True)
             if which == "root":
                 target.f["_compiled"] = False
                 for o_ in objs.values():
@@ -537,6 +546,10 @@ def t_compile(gname, mode="post", which="last"):
             I.require(not changed(before, after, allow), "compile_touches_only_self_and_the_lock_of_direct_parents")
             disp = target.f.get("dispatch")
             I.require(isinstance(disp, DispatchFn) and disp.attrs.get("map") is m and isinstance(disp.attrs.get("__code__"), tuple), "entry_point_swapped_to_the_generated_code_over_the_new_table")
+            gen = getattr(w, "last_generated", None)
+            if isinstance(disp, DispatchFn) and gen is not None:
+                same = all(disp.attrs.get(a_) is gen.attrs[a_] or disp.attrs.get(a_) == gen.attrs[a_] for a_ in ("__defaults__", "__kwdefaults__", "__annotations__"))
+                I.require(same, "defaults_kwdefaults_annotations_of_the_user_facing_function_are_those_of_the_generated_entry_point")
 
         return w, thunk, {"graph": gname, "which": which}
 
@@ -1222,5 +1235,61 @@ def t_next_resolve(which, nargs):
                 I.require(isinstance(r, Builtin), "resolve_returns_what_the_table_holds")
 
         return w, thunk, {"which": which, "nargs": nargs}
+
+    return build
+
+
+
+def t_built_flag(first_build):
+    """C18, calls made through the Ovld OBJECT (Ovld.__call__ / __get__ build first when the flag is off): at every program
+    point of the build - an interrupt may arrive anywhere - the built flag is off or the table is complete.  (The state seen
+    through the user-facing function is t_build_interrupt / finding F-halfbuilt.)"""
+
+    def build():
+        w = CoreWorld()
+        install_common(w)
+
+        def thunk(I):
+            w.reset()
+            s1, s2 = SigTok("s1"), SigTok("s2")
+
+            def fresh():
+                w.ovlds.clear()
+                w.maps_created.clear()
+                w.events = 0
+                w.log.clear()
+                o = mk_ovld(w, "o", [], False, compiled=False, locked=False, defns={s1: user_fn("f1", s1), s2: user_fn("f2", s2)}, I=I)
+                if first_build:
+                    o.f["dispatch"] = DispatchFn(o)
+                else:
+                    old = MapObj(w, "old", None)
+                    w.maps_created.clear()
+                    old.registered = [(s, Tok("adapted", orig=f, ovld=o)) for s, f in list(spec_defns(o).items())[:-1]]
+                    d = DispatchFn(o)
+                    d.attrs.update(__code__=("GENERATED", 0), map=old)
+                    o.f.update(map=old, dispatch=d)
+                return o
+
+            def flag_ok(o):
+                m_ = o.f.get("map")
+                complete = isinstance(m_, MapObj) and [(s_, f.attrs.get("orig")) for s_, f in m_.registered] == list(spec_defns(o).items())
+                return I.truth(o.f["_compiled"]) is False or complete
+
+            w.interrupt_at = None
+            o = fresh()
+            I.call_repo("core:Ovld.compile", [o], {})
+            npoints, points = w.events, list(w.log)
+            I.require(flag_ok(o), "flag_on_only_with_a_complete_table_after_a_successful_build")
+            for p_ in range(1, npoints + 1):
+                o = fresh()
+                w.interrupt_at = p_
+                try:
+                    I.call_repo("core:Ovld.compile", [o], {})
+                except PyRaise:
+                    pass
+                w.interrupt_at = None
+                I.require(flag_ok(o), f"built_flag_off_or_table_complete_if_interrupted_after[{p_}:{points[p_ - 1]}]")
+
+        return w, thunk, {"first_build": first_build}
 
     return build
